@@ -29,7 +29,11 @@ RULE = ("reply: 1-3 sequential exchanges on one real radiusConn over loopback UD
         "function authenticate_radius; the model prints the request it expects on the wire). corpus: defect witnesses, "
         "Go literal tables (lits) and one CoA per pkg/aaa attribute name. "
         "Non-trivial: a reply case where some datagram is delivered and some is not; a coa case with at least one reply; "
-        "every auth case.  Distinct: by case text.")
+        "every auth case; a fail case in which the second server was tried.  "
+        "fail: Provider.Authenticate / StartAccounting over 2-3 servers with DISTINCT secrets (15 % equal), each with its own "
+        "socket; earlier servers silent or answering only with datagrams signed with ANOTHER server's secret / forged / bad MA, "
+        "later servers genuine, mixed or bad; compared: the request on each server's wire (expected under that server's secret), "
+        "which servers are tried, and the final result.  Distinct: by case text.")
 TRUSTED = ["MD5 is an argument of the model (OCaml Digest in the driver, crypto/md5 in Go, hashlib in the generator); HMAC-MD5 is "
            "defined in Coq from it (RFC 2104)",
            "layeh.com/radius Parse/Encode are transcribed in the model (parse, enc_attrs, build_request) and tied by correspondence only",
@@ -316,13 +320,52 @@ def gen_auth(rng):
     return "auth secret=%s pw=%s %d %s" % (hx(secret), pw, n, " ".join(rec))
 
 
+# ------------------------------------------------------------------ fail-over cases
+FAIL_SECRETS = [b"secret-A", b"secret-B", b"third", b"s3cret"]
+
+
+def gen_fail(rng):
+    kind = rng.choice(["auth", "auth", "auth", "acct"])
+    n = rng.choice([2, 2, 2, 3])
+    secs = rng.sample(FAIL_SECRETS, n)
+    if rng.random() < 0.15:
+        secs[1] = secs[0]                 # equal secrets: replies for A are then legitimately valid on B
+    pw = rng.choice(["-", hx(b"pw")])
+    okcode = 5 if kind == "acct" else None
+    toks = ["fail", "kind=" + kind, "pw=" + pw, str(n)]
+    for i in range(n):
+        # earlier servers mostly fail (silent, or answering only with datagrams that must not be accepted)
+        mode = rng.choice(["silent", "silent", "bad", "good"]) if i < n - 1 else rng.choice(["good", "good", "bad", "silent", "mixed"])
+        rec = []
+
+        def a(k):
+            return rng.choice([b"", attr(27, struct.pack(">I", 100 * (i + 1) + k)), attr(88, b"pool%d%d" % (i, k)),
+                               attr(28, struct.pack(">I", 60 + k))])
+        code = lambda: okcode or rng.choice([2, 2, 2, 3])
+        others = [j for j in range(n) if j != i]
+        if mode in ("bad", "mixed"):
+            for k in range(rng.choice([1, 2])):
+                j = rng.choice(others)
+                rec.append(rng.choice(["sk%d:%d:%s" % (j, code(), hx(a(k))), "skma%d:%d:%s" % (j, code(), hx(a(k))),
+                                       "sk%d:%d:%s" % (j, code(), hx(a(k))), "forge:%d:%s" % (code(), hx(a(k))),
+                                       "wrong:%d:%s" % (code(), hx(a(k))), "badma:%d:%s" % (code(), hx(a(k)))]))
+        if mode in ("good", "mixed"):
+            rec.append(rng.choice(["ok:%d:%s" % (code(), hx(a(7))), "okma:%d:%s" % (code(), hx(a(8)))]))
+            if rng.random() < 0.3:
+                rec.append("sk%d:%d:%s" % (rng.choice(others), code(), hx(a(9))))
+        toks += ["secret=" + hx(secs[i]), str(len(rec))] + rec
+    return " ".join(toks)
+
+
 def gen_cases(rng, tier, budget):
     q = tier == "quick"
-    nr, nc, na = (300, 900, 80) if q else (4000, 10000, 800)
+    nr, nc, na, nf = (300, 900, 80, 90) if q else (4000, 10000, 800, 900)
     if budget:
-        nr, nc, na = budget, budget, max(10, budget // 5)
+        nr, nc, na, nf = budget, budget, max(10, budget // 5), max(10, budget // 5)
     cases = []
-    for i in range(max(nr, nc, na)):
+    for i in range(max(nr, nc, na, nf)):
+        if i < nf:
+            cases.append(gen_fail(rng))
         if i < nr:
             cases.append(gen_reply(rng))
         if i < nc:
@@ -365,6 +408,14 @@ def classify(case, impl, model):
             if pa != pb:
                 return "P", "packet %d: listener did %s, model says %s" % (k, pa, pb)
         return "G", "statistics or reply bytes differ while decision, events and authenticator validity agree"
+    if kind == "fail":
+        si, sm = _segs(impl), _segs(model)
+        if si[-1] != sm[-1]:
+            return "P", "after fail-over the provider returned %s, the model (a reply counts only under the secret of the server it arrived from) says %s" % (si[-1], sm[-1])
+        for k, (a, b) in enumerate(zip(si, sm)):
+            if a != b:
+                return "P", "server %d: request on the wire / servers tried differ: impl %s model %s" % (k, a[:80], b[:80])
+        return "G", "fail line differs"
     if kind == "auth":
         if _tok(impl, "got") != _tok(model, "got") or _tok(impl, "reqma") != _tok(model, "reqma"):
             return "P", "Authenticate returned %s (request Message-Authenticator valid=%s), model says %s (valid=%s)" % (
@@ -410,6 +461,8 @@ def nontrivial(case, out):
         return any(x and x != "timeout" for x in g)
     if kind == "coa":
         return " reply " in out
+    if kind == "fail":
+        return out.count("req=-") < out.count(":req=") and "s1:req=-" not in out   # a fail-over really happened
     return True
 
 
@@ -445,6 +498,12 @@ def distribution(cases, impl):
                 r = _tok(s, "reply")
                 if r:
                     codes[r[:2]] = codes.get(r[:2], 0) + 1
+        elif k == "fail":
+            d["failover_cases"] = d.get("failover_cases", 0) + 1
+            d["failover_second_server_tried"] = d.get("failover_second_server_tried", 0) + ("s1:req=-" not in o)
+            g = o.split("got=")[-1]
+            key = "failover_" + ("allowed" if g.startswith("allowed") else g if g in ("denied", "error", "ok") else "other")
+            d[key] = d.get(key, 0) + 1
         elif k == "auth":
             d["auth_cases"] += 1
             g = _tok(o, "got") or ""
@@ -512,6 +571,29 @@ def shrink(case):
                 yield emit(head[:3] + ["clients=" + ",".join(cl[:i] + cl[i + 1:])], pk)
         if head[2] != "maps=-":
             yield emit(head[:2] + ["maps=-"] + head[3:], pk)
+        return
+    if t[0] == "fail":
+        n = int(t[3])
+        srv = []
+        p = 4
+        for _ in range(n):
+            k = int(t[p + 1])
+            srv.append((t[p], t[p + 2:p + 2 + k]))
+            p += 2 + k
+
+        def emitf(srv):
+            toks = t[:3] + [str(len(srv))]
+            for sec, rec in srv:
+                toks += [sec, str(len(rec))] + rec
+            return " ".join(toks)
+        for i, (sec, rec) in enumerate(srv):
+            for j in range(len(rec)):
+                yield emitf(srv[:i] + [(sec, rec[:j] + rec[j + 1:])] + srv[i + 1:])
+        if n > 2:
+            for i in range(n):
+                s2 = srv[:i] + srv[i + 1:]
+                # recipes refer to server indices: keep them in range
+                yield emitf([(sec, [re.sub(r"^(sk(?:ma)?)(\d+)", lambda m: m.group(1) + str(int(m.group(2)) % len(s2)), r) for r in rec]) for sec, rec in s2])
         return
     if t[0] == "auth":
         rec = t[4:]
